@@ -242,6 +242,11 @@ class ExprMixin:
                 and all(isinstance(i, Const) for i in b.items):
             r = a in b.items
             return Const(r if op == 'in' else not r)
+        if op in ('in', 'notin') and isinstance(a, Const) and isinstance(b, Poly) and b.single_atom() is not None \
+                and b.single_atom()[0] == 'app' and b.single_atom()[1] == 'dict' and b.single_atom()[2] \
+                and all(isinstance(pr, Tup) and len(pr) == 2 and isinstance(pr.items[0], Const) for pr in b.single_atom()[2]):
+            r = any(pr.items[0] == a for pr in b.single_atom()[2])        # key in {literal dict}
+            return Const(r if op == 'in' else not r)
         if op in ('in', 'notin') and isinstance(a, Poly) and a.const_value() is not None and isinstance(b, Tup) \
                 and all(isinstance(i, Poly) and i.const_value() is not None for i in b.items):
             r = any(i.const_value() == a.const_value() for i in b.items)
